@@ -247,8 +247,26 @@ func (s Site) Break(t *verifsim.Tape, d *spec.Design, loc Loc) bool {
 	if !ok {
 		return false
 	}
-	s.set(nv)
+	s.set(carrierSafe(nv, loc))
 	return true
+}
+
+// carrierSafe keeps a mutated string expressible in its location: HTTP parsers
+// trim blanks around header and cookie values, so blanks at the ends are
+// replaced (the length, which is what the mutation is about, stays the same).
+func carrierSafe(v any, loc Loc) any {
+	str, ok := v.(string)
+	if !ok || loc == LocBody || loc == LocQuery {
+		return v
+	}
+	r := []rune(str)
+	for i := 0; i < len(r) && (r[i] == ' ' || r[i] == '\t' || r[i] == '\n'); i++ {
+		r[i] = 'x'
+	}
+	for i := len(r) - 1; i >= 0 && (r[i] == ' ' || r[i] == '\t' || r[i] == '\n'); i-- {
+		r[i] = 'x'
+	}
+	return string(r)
 }
 
 // BoundaryOK returns a value sitting exactly on the accepting side of the
@@ -284,7 +302,7 @@ func (s Site) BoundaryOK(t *verifsim.Tape, d *spec.Design, loc Loc) bool {
 			for len(r) < *v0.MaxLength {
 				r = append(r, pad...)
 			}
-			s.set(string(r[:*v0.MaxLength]))
+			s.set(carrierSafe(string(r[:*v0.MaxLength]), loc))
 			return true
 		}
 		return false
@@ -292,7 +310,7 @@ func (s Site) BoundaryOK(t *verifsim.Tape, d *spec.Design, loc Loc) bool {
 		if x, ok := cur.(string); ok {
 			r := []rune(x)
 			if len(r) >= *v0.MinLength {
-				s.set(string(r[:*v0.MinLength]))
+				s.set(carrierSafe(string(r[:*v0.MinLength]), loc))
 				return true
 			}
 		}
